@@ -73,10 +73,6 @@ theorem stream_deserialize_vlq_error (bs : Bytes) (e : String) (h : Gen.stream_d
 def wstep (i : Nat) (st : List Nat × Nat) (j : Nat) : List Nat × Nat :=
   (st.1 ++ [((if decide (st.2 ≠ 0) then (i % st.2) else i) / (128 ^ j)) + (if (decide (j > 0)) then 128 else 0)], 128 ^ j)
 
-theorem stream_serialize_vlq_unfold (i : Nat) :
-    Gen.stream_serialize_vlq i = ((List.range (bitLen i / 7 + 1)).reverse.foldl (wstep i) ([], 0)).1 := by
-  rfl
-
 theorem toNat_digit_last (i : Nat) : (UInt8.ofNat (i % 128)).toNat = i % 128 := by
   rw [UInt8.toNat_ofNat']; omega
 
@@ -105,25 +101,51 @@ theorem wfold_digits (i : Nat) : ∀ (k : Nat) (out : List Nat),
       rw [vlqDigits]
       simp [toNat_digit_cont]; omega
 
+/-- the other known shape of the loop: no carried variable, digit `(i // 128^j) % 128` -/
+def wstepB (i : Nat) (out : List Nat) (j : Nat) : List Nat :=
+  out ++ [((i / (128 ^ j)) % 128) + (if (decide (j > 0)) then 128 else 0)]
+
+theorem wfoldB_digits (i : Nat) : ∀ (k : Nat) (out : List Nat),
+    (List.range k).reverse.foldl (wstepB i) out = out ++ (vlqDigits i k).map UInt8.toNat := by
+  intro k
+  induction k with
+  | zero => intro out; simp [vlqDigits]
+  | succ k ih =>
+    intro out
+    rw [List.range_succ, List.reverse_append, List.reverse_singleton, List.singleton_append, List.foldl_cons, ih]
+    cases k with
+    | zero => simp [wstepB, vlqDigits, toNat_digit_last]; omega
+    | succ k' =>
+      rw [vlqDigits]
+      simp [wstepB, toNat_digit_cont]; omega
+
 /-- the integers the translated writer hands to `struct.pack("B", ·)` are the model's encoding, byte for byte — in
-particular each lies in 0..255, so the packing never raises -/
+particular each lies in 0..255, so the packing never raises. Two shapes of the loop are known to the proof: the one with
+the carried `mod` (`(i % mod if mod else i) // div`) and the plain one (`(i // 128**j) % 128`). -/
 theorem stream_serialize_vlq_eq (i : Nat) :
     Gen.stream_serialize_vlq i = (encodeVlq i).map UInt8.toNat := by
-  rw [stream_serialize_vlq_unfold]
-  have hlt := lt_pow_vlqLen i
-  unfold encodeVlq vlqLen at *
-  generalize bitLen i / 7 = m at *
-  rw [List.range_succ, List.reverse_append, List.reverse_singleton, List.singleton_append, List.foldl_cons]
-  have h0 : wstep i ([], 0) m = wstep i ([], 128 ^ (m + 1)) m := by
-    have hp : (128 : Nat) ^ (m + 1) ≠ 0 := by have := Nat.pow_pos (n := m + 1) (show 0 < 128 by omega); omega
-    unfold wstep
-    simp only [hp, ne_eq, not_false_eq_true, decide_true, if_true, not_true_eq_false, decide_false]
-    rw [Nat.mod_eq_of_lt hlt]
-    simp
-  rw [h0]
-  have := wfold_digits i (m + 1) []
-  rw [List.range_succ, List.reverse_append, List.reverse_singleton, List.singleton_append, List.foldl_cons] at this
-  simpa using this
+  first
+  | (have hu : Gen.stream_serialize_vlq i
+        = ((List.range (bitLen i / 7 + 1)).reverse.foldl (wstep i) ([], 0)).1 := rfl
+     rw [hu]
+     have hlt := lt_pow_vlqLen i
+     unfold encodeVlq vlqLen at *
+     generalize bitLen i / 7 = m at *
+     rw [List.range_succ, List.reverse_append, List.reverse_singleton, List.singleton_append, List.foldl_cons]
+     have h0 : wstep i ([], 0) m = wstep i ([], 128 ^ (m + 1)) m := by
+       have hp : (128 : Nat) ^ (m + 1) ≠ 0 := by have := Nat.pow_pos (n := m + 1) (show 0 < 128 by omega); omega
+       unfold wstep
+       simp only [hp, ne_eq, not_false_eq_true, decide_true, if_true, not_true_eq_false, decide_false]
+       rw [Nat.mod_eq_of_lt hlt]
+       simp
+     rw [h0]
+     have := wfold_digits i (m + 1) []
+     rw [List.range_succ, List.reverse_append, List.reverse_singleton, List.singleton_append, List.foldl_cons] at this
+     simpa using this)
+  | (have hu : Gen.stream_serialize_vlq i
+        = (List.range (bitLen i / 7 + 1)).reverse.foldl (wstepB i) [] := rfl
+     rw [hu, wfoldB_digits]
+     simp [encodeVlq, vlqLen])
 
 theorem stream_serialize_vlq_in_byte_range (i : Nat) : ∀ x ∈ Gen.stream_serialize_vlq i, x < 256 := by
   intro x hx
